@@ -66,7 +66,7 @@ def carrier_api():
 
     methods = [
         # declared FIRST: a method whose request comes from a dependency package must not influence how later methods are rendered
-        m('CheckDep', 'check', out='.other.dep.v1.Dep', sigs=['name,tags,kind'], inp='.other.dep.v1.DepReq'),
+        m('CheckDep', 'check', out='.other.dep.v1.Dep', sigs=['name,tags,kind,labels'], inp='.other.dep.v1.DepReq'),
         m('GetThing', 'get', sigs=['name,count']),
         m('DeleteThing', 'delete', out='google.protobuf.Empty', sigs=['name']),
         m('UpdateThing', 'update', sigs=['inner.name,tags', 'labels,kind,class,flag,opt_request_id']),
@@ -155,26 +155,51 @@ def _drive(args):
     return gen.run_driver('harness.drivers.call', root, payload, timeout=1800)
 
 
-def run(chk, cases, nshards=12, ads=False):
-    """cases: Call.tla cases.  Returns list of (case, observation) with observation = dict(events=[...], error).
-    ads=True: the alternative template set (python-gapic-templates=ads-templates,old-naming; sync clients only)."""
+def dep_library_api():
+    """the dependency package as a proto-plus library of its own (option proto-plus-deps=other.dep.v1 of the carrier)."""
+    dep = dict(carrier_api()['files'][0])
+    dep.pop('target', None)
+    dep['services'] = [dict(name='Deps', methods=[dict(name='Echo', **{'in': 'Dep', 'out': 'Dep'},
+                                                       http=[dict(verb='post', uri='/v1/dep:echo', body='*')])])]
+    return dict(files=[dep])
+
+
+def materialise_carrier(work, ads=False, ppd=False):
+    """generate the carrier (and, with ppd, the dependency library it then builds on) into one importable tree."""
     api = carrier_api()
-    module = 'acme.call.v1' if ads else MODULE
-    with gen.scratch() as work:
-        o = dict(transport=['grpc', 'rest'], snippets=False)
-        if ads:
-            o.update(templates='ads-templates', old_naming=True)
-        req, res = gen.generate_api(api, o, work)
-        root = gen.materialise(res, os.path.join(work, 'out'))
+    o = dict(transport=['grpc', 'rest'], snippets=False)
+    if ads:
+        o.update(templates='ads-templates', old_naming=True)
+    if ppd:
+        o.update(proto_plus_deps='other.dep.v1')
+    req, res = gen.generate_api(api, o, work)
+    root = gen.materialise(res, os.path.join(work, 'out'))
+    if ppd:
+        dwork = os.path.join(work, 'dep-opts'); os.makedirs(dwork, exist_ok=True)
+        _, dres = gen.generate_api(dep_library_api(), dict(transport=['grpc'], snippets=False), dwork)
+        droot = gen.materialise(dres, os.path.join(work, 'depout'))
+        import shutil
+        shutil.copytree(os.path.join(droot, 'other'), os.path.join(root, 'other'), dirs_exist_ok=True)
+    else:
         for fdp in req.proto_file:
             if fdp.name.startswith('other/'):
                 pipeline.write_pb2(fdp, root)
+    return api, root
+
+
+def run(chk, cases, nshards=12, ads=False, ppd=False):
+    """cases: Call.tla cases.  Returns list of (case, observation) with observation = dict(events=[...], error).
+    ads=True: the alternative template set (python-gapic-templates=ads-templates,old-naming; sync clients only).
+    ppd=True: option proto-plus-deps=other.dep.v1 (the dependency-package request is a proto-plus type of a second library)."""
+    module = 'acme.call.v1' if ads else MODULE
+    with gen.scratch() as work:
+        api, root = materialise_carrier(work, ads=ads, ppd=ppd)
         idx = list(range(len(cases)))
         jobs = []
         for s in range(nshards):
             sh = idx[s::nshards]
             if sh:
-                jobs.append((root, dict(api=api, module=module, ads=ads, cases=[dict(i=i, **cases[i]) for i in sh])))
+                jobs.append((root, dict(api=api, module=module, ads=ads, ppd=ppd, cases=[dict(i=i, **cases[i]) for i in sh])))
         obs = {}
         with ProcessPoolExecutor(min(nshards, 14)) as ex:
             for ok, out, err in ex.map(_drive, jobs):
@@ -286,8 +311,15 @@ def check(chk, cases, label, dep_enum=False):
 
 
 def _cfg(name, dep_enum):
+    """dep_enum: False | True (the enum keyword of the dependency-package request is offered) | a set of offered extras
+    ('kind', 'labels') as read off inspect.signature."""
     t = open(os.path.join(tlc.SPEC, name)).read()
-    return t.replace('DepEnumOffered = FALSE', 'DepEnumOffered = TRUE') if dep_enum else t
+    extras = {'kind'} if dep_enum is True else set(dep_enum or ())
+    if 'kind' in extras:
+        t = t.replace('DepEnumOffered = FALSE', 'DepEnumOffered = TRUE')
+    if 'labels' in extras:
+        t = t.replace('DepMapOffered = FALSE', 'DepMapOffered = TRUE')
+    return t
 
 
 def get_cases(chk, quick, seed, select=None, n_quick=2500, dep_enum=False):
